@@ -857,7 +857,8 @@ def check_font_case(acc, case, do_program_legs=True):
 
                 convertCFF2ToCFF(f)
             base2 = [(r.ops, float(h)) for r, h in zip(refs, hmtx)]
-            _compare_font(acc, "CFF2->CFF", base2, f, case, True, tols, "hmtx", hmtx, where="CFF->CFF2->CFF", hb_check=hb_after("CFF2->CFF"), recalcBBoxes=False)
+            # the converter may re-specialise a charstring (without topology preservation): fill equivalence
+            _compare_font(acc, "CFF2->CFF", base2, f, case, False, tols, "hmtx", hmtx, where="CFF->CFF2->CFF", hb_check=hb_after("CFF2->CFF"), recalcBBoxes=False)
         except Allowed:
             pass
     except Allowed:
@@ -1034,7 +1035,7 @@ def check_corpus_font(acc, fid, tier, seed, only=None):
                 with acc.guard("CFF2->CFF", case0):
                     convertCFF2ToCFF(g)
                 b2 = [(ops, h) for (ops, _), h in zip(base, hmtx)]
-                note_changes(_compare_font(acc, "CFF2->CFF", b2, g, case0, True, tols, "hmtx", hmtx, where="CFF->CFF2->CFF", base_kinds=kinds, recalcBBoxes=False))
+                note_changes(_compare_font(acc, "CFF2->CFF", b2, g, case0, False, tols, "hmtx", hmtx, where="CFF->CFF2->CFF", base_kinds=kinds, recalcBBoxes=False))
             except Allowed:
                 pass
     elif fmt == "cff2" and not variable and hmtx is not None:
@@ -1045,7 +1046,7 @@ def check_corpus_font(acc, fid, tier, seed, only=None):
                 g = _load(data, False)
                 convertCFF2ToCFF(g)
             b2 = [(ops, h) for (ops, _), h in zip(base, hmtx)]
-            note_changes(_compare_font(acc, "CFF2->CFF", b2, g, case0, True, tols, "hmtx", hmtx, where="CFF2->CFF", base_kinds=kinds, recalcBBoxes=False))
+            note_changes(_compare_font(acc, "CFF2->CFF", b2, g, case0, False, tols, "hmtx", hmtx, where="CFF2->CFF", base_kinds=kinds, recalcBBoxes=False))
         except Allowed:
             pass
     elif fmt == "cff2" and variable:
